@@ -9,9 +9,11 @@ CONSTANTS
   SizeIdx = {1, 2, 3, 4, 5, 6, 7, 8}
   Owners = {"o1", "o2"}
   Providers = {"p1", "p2"}
-  DSeqs = {1, 11, 111, 1111}
-  GSeqs = {1, 11, 111, 1111}
-  OSeqs = {1, 11, 111, 1111}
+  DSeqs = {"1", "11", "111", "1111"}
+  GSeqs = {"1", "11", "111", "1111"}
+  OSeqs = {"1", "11", "111", "1111"}
+  DSeqsB = {"1", "65537", "4294967295", "4294967296", "4294967297", "8589934593", "9223372036854775808", "18446744073709551615"}
+  SeqsB = {"1", "255", "256", "257", "65535", "65536", "65537", "4294967295"}
   MaxGroupsD = 16
   MaxGroupsG = 12
 INIT Init
